@@ -383,7 +383,15 @@ impl<T: HashAlgorithm> Nomt<T> {
             actuals.push((key, value));
         }
 
-        sess.finish(actuals)?.commit(&self)?;
+        let finished = match sess.finish(actuals) {
+            Ok(finished) => finished,
+            Err(e) => {
+                // The rollback log was already truncated in memory: refuse further commits.
+                self.store.poison();
+                return Err(e);
+            }
+        };
+        finished.commit(&self)?;
 
         Ok(())
     }
@@ -694,7 +702,12 @@ impl FinishedSession {
         if let Some(rollback_delta) = self.rollback_delta {
             // UNWRAP: if rollback_delta is `Some`, then rollback must be also `Some`.
             let rollback = nomt.store.rollback().unwrap();
-            rollback.commit(rollback_delta)?;
+            if let Err(e) = rollback.commit(rollback_delta) {
+                // The changeset is partially applied at this point and the rollback log may be
+                // partially written: refuse further commits.
+                nomt.store.poison();
+                return Err(e);
+            }
         }
 
         nomt.store.commit(
@@ -742,9 +755,17 @@ impl FinishedSession {
         if let Some(rollback_delta) = self.rollback_delta {
             // UNWRAP: if rollback_delta is `Some`, then rollback must be also `Some`.
             let rollback = nomt.store.rollback().unwrap();
-            if let Some(delta) = rollback.commit_nonblocking(rollback_delta)? {
-                self.rollback_delta = Some(delta);
-                return Ok(Some(self));
+            match rollback.commit_nonblocking(rollback_delta) {
+                Ok(Some(delta)) => {
+                    self.rollback_delta = Some(delta);
+                    return Ok(Some(self));
+                }
+                Ok(None) => {}
+                Err(e) => {
+                    // The rollback log may be partially written: refuse further commits.
+                    nomt.store.poison();
+                    return Err(e);
+                }
             }
         }
 
@@ -812,7 +833,12 @@ impl Overlay {
         if let Some(rollback_delta) = rollback_delta {
             // UNWRAP: if rollback_delta is `Some`, then rollback must be also `Some`.
             let rollback = nomt.store.rollback().unwrap();
-            rollback.commit(rollback_delta)?;
+            if let Err(e) = rollback.commit(rollback_delta) {
+                // The changeset is partially applied at this point and the rollback log may be
+                // partially written: refuse further commits.
+                nomt.store.poison();
+                return Err(e);
+            }
         }
 
         nomt.store
@@ -870,7 +896,12 @@ impl Overlay {
         if let Some(rollback_delta) = rollback_delta {
             // UNWRAP: if rollback_delta is `Some`, then rollback must be also `Some`.
             let rollback = nomt.store.rollback().unwrap();
-            rollback.commit(rollback_delta)?;
+            if let Err(e) = rollback.commit(rollback_delta) {
+                // The changeset is partially applied at this point and the rollback log may be
+                // partially written: refuse further commits.
+                nomt.store.poison();
+                return Err(e);
+            }
         }
 
         nomt.store
